@@ -21,8 +21,19 @@ def prior_decl(b, Rx, Dx, semi=None):
 
 
 def cond_decl(b, kind, Rc, Dy, Dx, semi=None):
-    """declare the conditional, optionally binding blocks to generic rationals (semi-symbolic)"""
+    """declare the conditional, optionally binding blocks to generic rationals (semi-symbolic).
+    Pseudo-blocks: "viaL" (construct from the precision only), "upd" (update_Sigma after construction)."""
     semi = semi or ()
+    _cond_decl(b, kind, Rc, Dy, Dx, semi)
+    R_ = 1 if kind == "nncontrol" else Rc
+    if "viaL" in semi:
+        from .c02 import _inv_of
+        b.derived("c_Lonly", (R_, Dy, Dy), _inv_of("c_S", R_, Dy))
+    if "upd" in semi:
+        (b.diag if "diag" in kind else b.spd)("c_S2", R_, Dy)
+
+
+def _cond_decl(b, kind, Rc, Dy, Dx, semi):
     if kind in ("full", "diag"):
         if "M" in semi:
             b.const("c_M", b.rat_array((Rc, Dy, Dx), nonzero=True))
